@@ -17,6 +17,7 @@ def run(ctx):
     dmon = lambda tr, sc: SC.mon_drained(tr)
     v, stats, hist, samples, nd = SC.run_property(ctx, MODULE, PROFILE, 250, 4000, [mon], keep, length=(10, 36),
                                                   drain=True, drain_monitors=[dmon])
+    SC.volatile_stage(ctx, MODULE, PROFILE, v, stats)
     return SC.finish(ctx, v, stats, hist, samples, nd,
                      "exactly-once biased histories with acknowledgements lost at each of the four stages (connection breaks, save/delete "
                      "faults, restarts); a reference broker (awaitRel set) judges the implementation's wire for duplicates",
